@@ -157,7 +157,9 @@ PROPS = {
     "C04": P("Pw.Props.C04",
              ["Pw.Props.C04.C04_no_crash", "Pw.Props.C04.runProg_no_panic", "Pw.Props.C04.encodeRow_no_panic",
               "Pw.Props.C04.loop_safe", "Pw.Props.C04.handleExecute_safe", "Pw.Props.C04.handleCommand_safe",
-              "Pw.Props.C04.serveAfterVersion_safe"],
+              "Pw.Props.C04.serveAfterVersion_safe", "Pw.Props.C04.C04_ends", "Pw.Props.C04.loop_ends",
+              "Pw.Props.C04.loop_fuel", "Pw.Props.C04.stepCommand_progress", "Pw.runProg_progress",
+              "Pw.copyRead_spec", "Pw.binFill_spec", "Pw.binRead_good"],
              [("hostile", 4000, 300000), ("alloc", 600, 20000), ("session", 1200, 100000), ("limit", 600, 40000),
               ("bincopy", 600, 40000), ("copy", 600, 40000), ("paramsd", 200, 6000), ("startup", 500, 40000)],
              ["Panics", "Reader", "Params", "Accessors"],
@@ -167,8 +169,13 @@ PROPS = {
                         "position, the model of Server.serve never ends in an unrecovered panic: the simple-query path cannot make "
                         "the row encoder panic (runProg_no_panic: format codes stay in {0,1}), a panic raised under Execute by hostile "
                         "result-format codes is contained (handleExecute_safe), and no other step of the loop can reach the crashed "
-                        "state (structural induction over handler programs, statements and loop iterations). The model is total: "
-                        "every function is structurally recursive, so serving a finite input is a finite computation. Tie: the "
+                        "state (structural induction over handler programs, statements and loop iterations). Theorem C04_ends: once the "
+                        "client's input has ended (reads fail or EOF after ANY byte, any phase) serving ends with the connection "
+                        "closed - no step blocks (copyRead_spec, binFill_spec, binRead_good, runProg_progress: the library's COPY "
+                        "readers and every handler program only consume input and block only on a merely silent stream), every loop "
+                        "iteration that continues has consumed a message (stepCommand_progress), and the fuel of the model's loops is "
+                        "never what stops them (loop_fuel, loop_ends). The model is total: every function is structurally "
+                        "recursive. Tie: the "
                         "'hostile' differential campaign (valid, lying and bit-damaged messages in every phase incl. text and binary "
                         "COPY through the library's own readers and ParseParameters; read faults / EOF after the n-th byte, write "
                         "faults at the k-th Write) run against the real server through Server.Serve in child processes: a panic kills "
